@@ -813,8 +813,18 @@ impl StrideRounding for Bitvector {
         let diff = interval.start.try_to_i128().unwrap() - self.try_to_i128().unwrap();
         let diff = diff % interval.stride as i128;
         let diff = (diff + interval.stride as i128) % interval.stride as i128;
-        let diff = Bitvector::from_u64(diff as u64).into_resize_unsigned(interval.bytesize());
-        self.signed_add_overflow_checked(&diff)
+        // Note that `diff` may be too large to be representable as a positive signed integer of the given bytesize.
+        let rounded = self.try_to_i128().unwrap() + diff;
+        let max = Bitvector::signed_max_value(self.width());
+        if rounded > max.try_to_i128().unwrap() {
+            None
+        } else {
+            Some(
+                Bitvector::from_i64(rounded as i64)
+                    .into_truncate(interval.bytesize())
+                    .unwrap(),
+            )
+        }
     }
 
     /// Round `self` down to the nearest value that adheres to the stride of `interval`.
@@ -826,8 +836,18 @@ impl StrideRounding for Bitvector {
         let diff = self.try_to_i128().unwrap() - interval.end.try_to_i128().unwrap();
         let diff = diff % interval.stride as i128;
         let diff = (diff + interval.stride as i128) % interval.stride as i128;
-        let diff = Bitvector::from_u64(diff as u64).into_resize_unsigned(interval.bytesize());
-        self.signed_sub_overflow_checked(&diff)
+        // Note that `diff` may be too large to be representable as a positive signed integer of the given bytesize.
+        let rounded = self.try_to_i128().unwrap() - diff;
+        let min = Bitvector::signed_min_value(self.width());
+        if rounded < min.try_to_i128().unwrap() {
+            None
+        } else {
+            Some(
+                Bitvector::from_i64(rounded as i64)
+                    .into_truncate(interval.bytesize())
+                    .unwrap(),
+            )
+        }
     }
 }
 
